@@ -96,6 +96,16 @@ func VerifC36Shutdown() {
 		vAssert("mqtt5-client-receives-disconnect-0x8B", last.Type == 14 && last.HasRsn && last.Reason == 0x8B)
 	}
 	w2 := vParseWire(vConnWritten(c2), ver2)
+	if len(w2.Pkts) > 0 {
+		// C13: whatever the shutdown does to a connection that is being established, the first packet it gets is
+		// its CONNACK
+		if stage == 1 {
+			// recorded class: the client is registered (Clients.Add) before its CONNACK is written; a Close that takes
+			// its list in between disconnects it first, so a DISCONNECT precedes (or replaces) the CONNACK
+			vAssert("kf-client-registered-before-its-connack-is-disconnected-first-by-close", w2.Pkts[0].Type != 14)
+		}
+		vAssert("first-packet-to-a-connection-is-its-connack", w2.Pkts[0].Type == 2)
+	}
 	if ver2 == 5 && len(w2.Pkts) > 0 && w2.Pkts[0].Type == 2 && w2.Pkts[0].Reason == 0 {
 		// admitted (CONNACK success) during the shutdown: it is a connected client and must be told
 		last := w2.Pkts[len(w2.Pkts)-1]
